@@ -142,8 +142,12 @@ struct Shared {
     using namespace bspline::operators;
     return X<2>{} + SplineOperator<T, 1>{v} * Dx<1>{};
   }
+  // one round in four shares a large grid (65..100 points)
+  static std::vector<R> mkPts(Rng &g) {
+    return g.chance(1, 4) ? genGrid(g, true, 65, 100) : genGrid(g, true, 7, 10);
+  }
   Shared(Rng &g)
-      : pts(genGrid(g, true, 7, 10)), knots(mkKnots(pts)),
+      : pts(mkPts(g)), knots(mkKnots(pts)),
         grid(mkVec<T>(pts)), twin(mkVec<T>(pts)), gen(knots, grid),
         b0(gen.template generateBSplines<0>()),
         b1(gen.template generateBSplines<1>()),
@@ -511,12 +515,13 @@ void runCase(Ctx &c) {
     c.nontrivial(h.h);
   }
   c.count("rounds");
+  c.count(S.pts.size() >= 64 ? "shared-grid:large" : "shared-grid:small");
   c.count("threads", (uint64_t)nthreads);
   c.count("operations", nev);
   c.count("threads:" + std::to_string(nthreads));
   c.sample("round with " + std::to_string(nthreads) + " threads x " +
-               std::to_string(len) + " actions over shared const objects on grid " +
-               gridStr(S.pts) + ": all digests equal to the sequential run",
+               std::to_string(len) + " actions over shared const objects on a grid of " +
+               std::to_string(S.pts.size()) + " points: all digests equal to the sequential run",
            2);
 }
 
